@@ -135,7 +135,7 @@ def search(ctx):
 
 SPEC = {
     "id": "C16",
-    "gens": ["RankTable"],
+    "gens": ["RankTable", "ResolveShape"],
     "lean_modules": ["RsslVerif.Thm.C16"],
     "theorems": [T + n for n in [
         # facts about the re-extracted tables
@@ -151,7 +151,15 @@ SPEC = {
         "resolveLazy_eq_resolve", "resolveLazy_perm",
         # recorded readings / witnesses (decide on concrete inputs, replayed on the real code by corpus/C16.txt)
         "in_out_twin_is_ambiguous", "default_twin_is_ambiguous", "vec1_twin_is_ambiguous",
-        "tournament_without_winner", "scalar_to_matrix_selected"]],
+        "tournament_without_winner", "scalar_to_matrix_selected",
+        # candidates of every kind (GCand: arbitrary deduction relation and arity range; TCand: the generator's templates)
+        "resolveG_perm", "resolveG_perm_normalized", "resolveG_of_plain", "plain_wf", "template_wf",
+        "selectedG_not_dominated", "selectedG_is_viable", "unique_exact_selectedG", "twin_exact_ambiguousG",
+        "resolveGLazy_eq_resolveG", "resolveGLazy_perm", "resolveT_perm", "resolveTLazy_eq_resolveT",
+        "template_twin_is_ambiguous", "template_literal_deduces_int", "template_const_vector_argument",
+        "explicit_args_exclude_plain_functions", "template_vector_of_vector_panics",
+        # the source text of the transcribed routines, re-extracted each run
+        "resolve_shape_as_modelled", "resolve_source_as_transcribed"]],
     "harness": "c16",
     "nontrivial": nontrivial,
     "finding_key": finding_key,
